@@ -180,21 +180,10 @@ def rule_optional(ctx: Ctx, repo: Repo) -> None:
                 ctx.check(rendered == [want], "R-C13.3", fi.fq,
                           "an annotated parameter whose default is None is shown as Optional[annotation] (and only then)",
                           construct=f"{lab}: rendered {[_sh(r) for r in rendered]}, expected {_sh(want)}")
-    # sibling: the import of Optional is added whenever render_parameter wraps
-    gi = repo.fn(ST, "get_imports_for_signature")
-    ctx.functions.add(gi.fq)
-    adds = [c for c in calls_in(gi.node) if isinstance(c.func, ast.Attribute) and c.func.attr == "add" and c.args and isinstance(c.args[0], ast.Constant) and c.args[0].value == "Optional"]
-    g = cfg_of(gi)
-    ok = False
-    for c in adds:
-        n = g.node_of(c)
-        gs = {(norm(a.ast), pol) for a, pol in g.guards(n.id)} if n else set()
-        conds = {t for t, p in gs}
-        if any("default is None" in t and p for t, p in gs) and all(("_is_optional" not in t) or (not p) for t, p in gs) and \
-                not any(t for t, p in gs if "annotation is not" in t and not p):
-            ok = True
-    ctx.check(ok, "R-C13.3", gi.fq, "`Optional` is imported for every parameter whose default is None and whose annotation is not already Optional",
-              construct="; ".join(norm(c) for c in adds))
+    # sibling: the import of Optional is added whenever render_parameter wraps - decided on the rendered stub text
+    # (a parameter `foo: T = None` of every core type; the stub must provide every name it uses)
+    from . import c11 as _c11
+    _c11.rule_pipeline_core(ctx, repo, "R-C13.3")
 
 
 def argparse_table(repo: Repo) -> List[Tuple[str, bool, Tuple[str, ...], Dict[str, V]]]:
